@@ -49,7 +49,7 @@ CHECKS = {
 
  "C06": dict(level="model_checking",
    text="GluonCore.tla connector part: one action per message-level update kind (MessagesCreated - plain, with flags, batch of two as one Exists update, with an unknown mailbox to be ignored, for a known message; MessageMailboxesUpdated; MessageFlagsUpdated; MessageUpdated with unchanged literal, with a CHANGED literal (old entity removed and marked deleted, new entity under the same remote id) and with AllowCreate for an unknown message; MessageDeleted; MessageIDChanged; UIDValidityBumped with the invalidation of every selected session (BYE at its next command, reconnect); Noop), duplicates/echoes (model: no-ops) and updates naming unknown or protected objects with the acknowledgement class the connector must see; behaviours interleaving them with client commands are generated by TLC and replayed through the harness connector: the Waiter result of every update, the updates enqueued to every session (an echo must enqueue none), the wire output of the observing sessions and every mailbox after every step must equal the model; a missing acknowledgement within 10 s is a violation",
-   note=CORE_NOTE + "; mailbox-level updates on real mailboxes are replayed by the namespace module (C14); the exhaustive family conn2 (one mailbox, 3 messages) is model-checked in the thorough tier",
+   note=CORE_NOTE + "; mailbox-level updates on real mailboxes are replayed by the namespace module (C14); the exhaustive family conn2 (one mailbox, 3 messages; 2 messages quick / 3 thorough) is model-checked in both tiers",
    technique="TLA+ spec + TLC-generated behaviours; replay through a harness connector observing every Waiter", design="DESIGN.md section 5 C06"),
 
  "C17": dict(level="model_checking",
